@@ -823,10 +823,45 @@ def c12_shift(ctx):
             return
 
 
+def c12_parked_dependencies(ctx):
+    """no component is overdue when control returns: an AGV parked on a time dependency whose
+    condition already holds (its job is next in line, or some AGV has been assigned to the blocking
+    job) is due - independent reading of `_time_dependency_is_resolved`"""
+    from jobshoplab.types.state_types import TimeDependency as _TD
+    from jobshoplab.utils.state_machine_utils import buffer_type_utils as B
+    for si, rec in enumerate(ctx.records):
+        if rec.kind not in ("reset", "act") or rec.error is not None:
+            continue
+        res = rec.result if rec.kind == "reset" else rec.env_state
+        if res is None or not hasattr(res, "state") or not getattr(res, "success", True):
+            continue
+        st = res.state
+        if len(res.possible_transitions) == 0:
+            continue
+        for t in st.transports:
+            d = t.occupied_till
+            if not isinstance(d, _TD):
+                continue
+            buf = next((m.postbuffer for m in st.machines if m.postbuffer.id == d.buffer_id), None)
+            if buf is None:
+                continue
+            cfg = ctx.buf_cfg.get(buf.id)
+            try:
+                nxt = B.get_next_job_from_buffer(buf, cfg)
+            except Exception:  # noqa
+                continue
+            if nxt == t.transport_job or any(x.transport_job == d.job_id for x in st.transports):
+                yield F("resolved-dependency-still-parked",
+                        f"{t.id} waits on {d.job_id} in {d.buffer_id} although "
+                        f"{'its job is next in line' if nxt == t.transport_job else 'an AGV is assigned to the blocking job'} (t={tt(st.time)})", si)
+                return
+
+
 def c12(ctx):
     if ctx.instance is None:
         return
     yield from c12_shift(ctx)
+    yield from c12_parked_dependencies(ctx)
     for si, rec in enumerate(ctx.records):
         if rec.kind not in ("reset", "act", "smstep", "smapply"):
             continue
